@@ -100,13 +100,15 @@ def gen(rng, knobs):
         tags = [["t", rng.choice(["x", "xy", "é", "a b"])]]
         if rng.random() < 0.5:
             tags.append([rng.choice(["p", "e"]), hx(rng)])
+        if rng.random() < 0.4:
+            tags.append(["t", rng.choice(["y", "xyz", "b"])])       # two values under one name
         anchors.append(craft(rng, rng.choice(pubs), rng.choice([1, 1, 7, 256, 0x10000 - 1]),
                              T0 - rng.choice([10, 10, 20, 300]), tags,
                              eid=hx(rng, first=rng.choice([0, 0xff, None, None]))))
     probes = []
     for _ in range(rng.randint(5, 9)):
         a = rng.choice(anchors)
-        shape = rng.choice(["kinds", "authors", "authors+kinds", "tag", "ids", "window", "kinds+since",
+        shape = rng.choice(["kinds", "authors", "authors+kinds", "tag", "ids", "window", "kinds+since", "ptag", "ptag+tag*",
                             "tag+until", "authors+tag", "kinds*", "tag*", "authors*", "tag+kinds",
                             "ids+kinds", "authors+kinds+tag", "tag+window"])
         f = {}
@@ -115,9 +117,12 @@ def gen(rng, knobs):
             f["kinds"] = [a["kind"]] + ([b["kind"], a["kind"] + 2] if "*" in shape else [])
         if "authors" in shape:
             f["authors"] = [a["pubkey"]] + ([b["pubkey"]] if "*" in shape else [])
-        if "tag" in shape:
+        if any(part in ("tag", "tag*") for part in shape.split("+")):
             t = a["tags"][0]
             f["#" + t[0]] = [t[1]] + ([b["tags"][0][1], t[1] + "zz"] if "*" in shape else [])
+        if "ptag" in shape:
+            others = [t for t in a["tags"] if t[0] in ("p", "e")] or [["p", hx(rng)]]
+            f["#" + others[0][0]] = [others[0][1]] if rng.random() < 0.5 else [hx(rng)]
         if "ids" in shape:
             f["ids"] = [a["id"], b["id"]]
         if "window" in shape:
@@ -245,6 +250,11 @@ def run(case, sim):
                     g["#t"] = [a["tags"][0][1]]
                 elif "ids" not in g:
                     g["ids"] = [a["id"]]
+                # ... or a multi-value tag condition built from one event's own values
+                tv = sorted({t[1] for t in a["tags"] if t[0] == "t"})
+                if len(tv) >= 2 and "#t" not in f and pi % 2 == 0:
+                    g = dict(f)
+                    g["#t"] = tv
                 if g != f:
                     narrower = await ask(pi, g, "meta")
                     if narrower is not None:
